@@ -57,19 +57,26 @@ def run(P, C, tier):
                         ack = None
         # a failed write committed nothing: edges taken only when the reply is an Err may skip the request
         skip = set()
+        # the reply of the write: the variable that receives the awaited value of the oneshot channel (by definition, not by name)
+        REPLY = set()
+        for l, n, lty, leaf in b.named_locals():
+            if leaf[0] == "var" and lty.startswith("std::result::Result<"):
+                full = b.local_term(l, expand_vars=True)
+                if any(x[0] == "await" for x in mir.subterms(full)) and any(x[0] == "call" and x[1].endswith("oneshot::channel") for x in mir.subterms(full)):
+                    REPLY.add(n)
         for sb in sorted(b.live_blocks()):
             t = b.blocks[sb]["t"]
             if t["k"] != "switch":
                 continue
             term = b.switch_term(sb, expand_vars=False)
             dv = None
-            if term[0] == "discr" and field_path(term[1]) == "result":
+            if term[0] == "discr" and field_path(term[1]) in REPLY:
                 table = dict(term[3])
                 for v, tg in t["targets"]:
                     if table.get(v) == "Err":
                         skip.add((sb, tg))
             atom, _ = mir.cond_atoms(term, [0])
-            if atom[0] == "call" and atom[2] and field_path(atom[2][0]) == "result":
+            if atom[0] == "call" and atom[2] and field_path(atom[2][0]) in REPLY:
                 for tg, vals in __import__("rules.rights", fromlist=["x"]).switch_edges(b, sb):
                     tr = mir.cond_atoms(term, vals)[1]
                     if (atom[1].endswith("::is_ok") and tr is False) or (atom[1].endswith("::is_err") and tr is True):
@@ -94,14 +101,13 @@ def run(P, C, tier):
                 # recomputation before the streamed mutations are written and nothing recomputes (announces) them later
                 acked = False
                 for c in cs:
-                    for sg, vals, term in b.guards(c, expand_vars=True):
-                        if mir.has_call(term, r"(oneshot::Receiver|mpsc::.*Receiver).*::recv$") is not None and "send_res" in term_str(term):
-                            acked = True
+                    # a reply awaited (outside the input loop) before the request: a receive that dominates the request
+                    # and is not itself a loop header of the stream's input
                     for rb, rt in b.live_calls(awaits=True):
                         nme = callee_name(rt)
                         if ("Receiver" in nme and nme.endswith("::recv") or nme.endswith("oneshot::Receiver::poll")) and b.dominates(rb, c):
-                            a0 = term_str(b.call_args(rb, expand_vars=True)[0])
-                            if "send_res" in a0 or "reply" in a0 or "receive" in a0:
+                            in_loop = rb in b.reach_after(rb)
+                            if not in_loop:
                                 acked = True
                 C.ob("R1", "GraphDatabaseService::mutation_stream:ordered-after-write", acked, b.loc(cs[0]),
                      "the recomputation request of a closed stream is sent as soon as the last mutation was *forwarded* to the database actor; it is not ordered after the "
